@@ -34,6 +34,8 @@ type decOut struct {
 	Panic string   `json:"panic,omitempty"`
 	Msgs  []string `json:"msgs,omitempty"`
 	Why   string   `json:"why,omitempty"`
+	Ref   []string `json:"ref,omitempty"`   // accounting reference loop over the real detectOneMsg
+	RefW  []int    `json:"ref_w,omitempty"` // widths of the reference runs
 }
 
 func toBytes(l []int) []byte {
@@ -78,8 +80,40 @@ func runDetect(in decIn) (out decOut) {
 	return out
 }
 
+// refLoop is the accounting the property states, executed with the real
+// detectOneMsg: runs are adjacent, in order, non-empty; bytes are carried to
+// the next read only when detectOneMsg asks for more.
+func refLoop(chunks [][]int) (msgs []string, widths []int) {
+	defer func() {
+		if r := recover(); r != nil {
+			msgs = append(msgs, "PANIC "+fmt.Sprint(r))
+		}
+	}()
+	var left []byte
+	for _, c := range chunks {
+		b := append(append([]byte{}, left...), toBytes(c)...)
+		more := len(c) == 256
+		i := 0
+		for i < len(b) {
+			w, m := tea.VerifDetectOneMsg(b[i:], more)
+			if w <= 0 {
+				break
+			}
+			msgs = append(msgs, tea.VerifDescribeMsg(m))
+			widths = append(widths, w)
+			i += w
+		}
+		if i > len(b) {
+			i = len(b)
+		}
+		left = append([]byte{}, b[i:]...)
+	}
+	return msgs, widths
+}
+
 func runRead(in decIn) decOut {
 	out := decOut{ID: in.ID}
+	out.Ref, out.RefW = refLoop(in.Chunks)
 	sr := &scriptReader{final: io.EOF}
 	if in.Err == "fail" {
 		sr.final = errScripted
